@@ -20,7 +20,7 @@ Statement-by-statement correspondence
   (`total = 0`; `None` skipped; shape check; `total += val` is IN PLACE once `total` is an ndarray, so an
   int64 total refuses a float addend with a `TypeError` (numpy same-kind casting); the weights in the
   denominator are those of ALL cells with a weight, also of cells whose value is `None`)
-* `summarize_premium=False`: `_non_loss_distinct_indices`, `cell_non_loss_values[key][0]` → `nonLossDistinctIndices`,
+* `summarize_premium=False`: first non-None value of `cell_raw_values[key]` (D28 repaired) → `firstValue`; `nonLossDistinctIndices`,
   `pickIdx`; (the first distinct index is always 0, so the value is the FIRST cell's, `None` if it lacks the key)
 * `summarize`: `_metadata_gcd` first, `tlz.groupby` by coordinates, one `CumulativeCell`/`IncrementalCell` per
   group (validating constructor), `Triangle(...)`.
@@ -315,11 +315,18 @@ def aggKey (tr : Transc) (extra : List RuleEntry) (raw : Dict (List Val)) (k : S
     | .error e => .error e
     | .ok v => .ok (k, v)
 
-/-- `cell_non_loss_values[key][0]` -/
-def firstNonLoss (nl : Dict (List Val)) (k : String) : Except Err (String × Val) :=
-  match nl.get? k with
-  | some (v :: _) => .ok (k, v)
-  | some [] => .error .indexError
+/-- `next((val for val in values if val is not None), None)`: the first value that is not `None` -/
+def firstValue : List Val → Val
+  | [] => .none
+  | .none :: rest => firstValue rest
+  | v :: _ => v
+
+/-- `next((val for val in cell_raw_values[key] if val is not None), None)` (repair of D28; before it was
+`cell_non_loss_values[key][0]`, the FIRST cell's entry, `None` when that cell lacks the field): the value of the first
+cell of the coordinate that has one, `None` if none has -/
+def firstNonLoss (raw : Dict (List Val)) (k : String) : Except Err (String × Val) :=
+  match raw.get? k with
+  | some vs => .ok (k, firstValue vs)
   | none => .error .keyError
 
 /-- `summarize_cell_values(cells, agg_fns, summarize_premium)` -/
@@ -331,14 +338,13 @@ def summarizeCellValues (tr : Transc) (extra : List RuleEntry) (cells : List Cel
     let raw := rawValues cells keys
     if summarizePremium then smMapE (aggKey tr extra raw) keys
     else
-      let idx := nonLossDistinctIndices cells
-      let nl : Dict (List Val) := raw.map fun p => (p.1, pickIdx idx p.2)
+      -- (`_non_loss_distinct_indices` / `cell_non_loss_values` are still computed by the code but no longer read)
       let lossKeys := keys.filter fun k => !nonLossMetrics.contains k
       let nonLossKeys := keys.filter fun k => nonLossMetrics.contains k
       match smMapE (aggKey tr extra raw) lossKeys with
       | .error e => .error e
       | .ok loss =>
-        match smMapE (firstNonLoss nl) nonLossKeys with
+        match smMapE (firstNonLoss raw) nonLossKeys with
         | .error e => .error e
         | .ok nonLoss => .ok (loss ++ nonLoss)
 
